@@ -325,6 +325,8 @@ impl WorkStealingExecutor {
             queue.len() < self.queues[worker_id].capacity
         };
 
+        #[cfg(feature = "verif-hooks")]
+        crate::verif_hooks::sched_point(crate::verif_hooks::site::WS_SUBMIT_AFTER_CHECK);
         if can_use_local {
             // Try local queue
             if self.queues[worker_id].push_local(task).is_ok() {
@@ -422,6 +424,8 @@ impl WorkStealingExecutor {
         const MAX_IDLE: usize = 100;
 
         while !shutdown.load(Ordering::Relaxed) {
+            #[cfg(feature = "verif-hooks")]
+            crate::verif_hooks::sched_point(crate::verif_hooks::site::WS_LOOP_TOP);
             let task = Self::find_task(my_queue, &other_queues, &global_queue, &stats);
 
             match task {
@@ -442,6 +446,8 @@ impl WorkStealingExecutor {
                     stats.active_tasks.fetch_sub(1, Ordering::Relaxed);
                 }
                 None => {
+                    #[cfg(feature = "verif-hooks")]
+                    crate::verif_hooks::sched_point(crate::verif_hooks::site::WS_IDLE_POLL_BASE + worker_id as u32);
                     idle_count += 1;
                     if idle_count < MAX_IDLE {
                         // Short busy wait for low latency
@@ -502,6 +508,23 @@ impl WorkStealingExecutor {
     }
 
     /// Get the total number of queued tasks across all workers
+    /// Verification hook: (local, steal) queue lengths per worker and the global queue length.
+    #[cfg(feature = "verif-hooks")]
+    pub fn verif_queue_lens(&self) -> (Vec<(usize, usize)>, usize) {
+        let per_worker = self
+            .queues
+            .iter()
+            .map(|q| {
+                (
+                    q.local_queue.lock().unwrap_or_else(|e| e.into_inner()).len(),
+                    q.steal_queue.lock().unwrap_or_else(|e| e.into_inner()).len(),
+                )
+            })
+            .collect();
+        let global = self.global_queue.lock().unwrap_or_else(|e| e.into_inner()).len();
+        (per_worker, global)
+    }
+
     pub fn total_queued(&self) -> usize {
         let worker_tasks: usize = self.queues.iter().map(|q| q.len()).sum();
         let global_tasks = self.global_queue.lock().unwrap_or_else(|e| e.into_inner()).len();
